@@ -160,6 +160,25 @@ def norm(v):
     return "" if v is None else v
 
 
+def home_files():
+    """{relative path: bytes} of every file under the invocation's HOME / XDG directories (settings, data, cache, logs).  The logging
+    set-up file ofxget creates on its first run is left out (it is no setting of a server); an absent log file counts as empty."""
+    root = os.environ["HOME"]
+    out = {}
+    for d, _, fs in os.walk(root):
+        for f in fs:
+            pth = os.path.join(d, f)
+            rel = os.path.relpath(pth, root)
+            if f == "logging.json" or "vf-" in rel:
+                continue
+            try:
+                with open(pth, "rb") as fh:
+                    out[rel] = fh.read()
+            except OSError:
+                pass
+    return {k: v for k, v in out.items() if v or not k.endswith(".log")}
+
+
 def argv_for(nick, cliopts, cmd="stmt"):
     argv = [cmd, nick]
     for k, v in cliopts.items():
@@ -291,11 +310,15 @@ def reflects(ctx, eff, data, argv, case):
     want = {"version": eff.get("version"), "pretty": bool(eff.get("pretty")), "unclosedelements": bool(eff.get("unclosedelements")),
             "nonewfileuid": bool(eff.get("nonewfileuid")), "user": eff.get("user") or None, "language": eff.get("language"), "appid": eff.get("appid"),
             "appver": eff.get("appver"), "org": eff.get("org") or None, "fid": (eff.get("fid") or None) if eff.get("org") else obs["fid"]}
+    if "clientuid" in d["signon"]:
+        # <CLIENTUID> exists from OFX 1.0.3 on: from that version on the effective one is in every sign-on (below it: not judged)
+        obs["clientuid"] = d["signon"]["clientuid"]
+        want["clientuid"] = (eff.get("clientuid") or None) if (eff.get("version") or 0) >= 103 else obs["clientuid"]
     if not want["user"] or any(r["kind"] == "profile" for r in d["requests"]):
         want["user"] = None  # no user configured, or a profile request: the anonymous placeholder goes out (C14's business)
     for k in want:
         w, o = want[k], obs[k]
-        if k in ("user", "language", "appid", "appver", "org", "fid") and not w:
+        if k in ("user", "language", "appid", "appver", "org", "fid", "clientuid") and not w:
             continue  # nothing configured anywhere: the client's own default goes out
         if isinstance(w, str) and isinstance(o, str):
             w, o = html_decode(w), o  # identifiers with entity look-alikes: C06's known finding, not judged here
@@ -458,11 +481,22 @@ def one_history(ctx, net, rng, idx):
             argv.append("--write")
         if kind == "dry-write":
             argv.append("--dryrun")
+        if rng.random() < 0.3:
+            argv.append(rng.choice(["-v", "-vv"]))  # chatty runs: what is logged goes to the console, not into files
+            ctx.count("history_runs_verbose")
         path = cli.user_cfg_path()
         before = path.read_bytes() if path.exists() else None
+        files0 = home_files()
         nrec0 = len(net.records)
         inv, og = cli.run_main(argv)
         after = path.read_bytes() if path.exists() else None
+        files1 = home_files()
+        for rel, data in files1.items():
+            if canary.encode() in data:
+                ctx.violation(f"persist/password-stored/{os.path.basename(rel)}", f"run {r} ({kind}) {argv[-3:]}: the password appears in {rel}", case)
+        if kind == "dry-write" and files1 != files0:
+            diff = sorted(k for k in set(files0) | set(files1) if files0.get(k) != files1.get(k))
+            ctx.violation(f"persist/dry-run-wrote/{os.path.basename(diff[0])}", f"run {r} (dry run) changed files {diff}", case)
         ctx.ev()
         ctx.count("history_runs")
         runs.append({"kind": kind, "argv": argv})
